@@ -1,5 +1,6 @@
 import Verif.Conc.Guarded
 import Verif.Generated.LockShape
+import Verif.Conc.WrapperTable
 /-!
 # C07 at the generated table: every public method is `guarded`, hence no data race
 
